@@ -10,6 +10,13 @@ def run(tier, seed):
     chk = vlib.Check(PID, tier, seed)
     quick = tier == "quick"
     vlib.tlc_check(chk, "H_Cond abstract object, exhaustive", os.path.join(SPEC, "H_Cond.tla"), os.path.join(SPEC, "H_CondMC.cfg"), timeout=600)
+    d = os.path.join(VERIF, "spec", "sync")
+    vlib.tlc_check(chk, "CondProto: wait = lock(cond), unlock(mutex), enqueue + unlock(cond) + sleep, relock(mutex) as coded; exhaustive incl. liveness",
+                   os.path.join(d, "CondProto.tla"), os.path.join(d, "CondProtoMC.cfg"), timeout=600)
+    r = vlib.tlc_check(chk, "CondProto releasing the mutex before taking the condition variable's lock (must be violated: lost signal)",
+                       os.path.join(d, "CondProto.tla"), os.path.join(d, "CondProtoUnlockFirst.cfg"), timeout=600, expect="violation")
+    if not r["violated"]:
+        raise vlib.Broken("the unlock-first variant of CondProto is not rejected: the properties are vacuous")
     vlib.history_check(chk, "d_sync", ["cond", "condtimed"], "H_Cond", quick, seed, what="cond history violates atomic release-and-wait / exact wake-ups / mutex held at return")
     chk.assumptions += ["serialized mode explores sequentially consistent interleavings of the hooked atomic operations",
                         "scenario scripts follow a discipline under which a correct implementation terminates; a run that ends in deadlock/stuck/budget is reported as a progress violation"]
